@@ -114,11 +114,16 @@ Definition out_nothing (ou : out) : bool :=
   (fst ou =? 0) && match snd ou with [] => true | _ => false end.
 
 (* specification state: per BindLocalStream call its stream info, downstream
-   writer and send history; which call currently binds which SSRC *)
-Record shandle := mkSHd { sd_info : sinfo; sd_wid : Z; sd_hist : ahist (hdr * list Z) }.
-Record sstate := mkSS { ss_handles : list shandle; ss_bound : list (Z * nat) }.
+   writer and send history, and whether the call registered a stream at all
+   (sd_served = false: no nack feedback negotiated, or the interceptor was
+   already closed - "no stream is served afterwards": the writer must be
+   transparent and the stream counts as unbound); which call currently binds
+   which SSRC; whether Close has been called *)
+Record shandle := mkSHd { sd_info : sinfo; sd_wid : Z; sd_hist : ahist (hdr * list Z); sd_served : bool }.
+Record sstate := mkSS { ss_handles : list shandle; ss_bound : list (Z * nat); ss_closed : bool }.
 
-Definition sd_set_hist (a : ahist (hdr * list Z)) (s : shandle) : shandle := mkSHd (sd_info s) (sd_wid s) a.
+Definition sd_set_hist (a : ahist (hdr * list Z)) (s : shandle) : shandle :=
+  mkSHd (sd_info s) (sd_wid s) a (sd_served s).
 
 (* RFC 4585 generic NACK: PID and the 16-bit bitmask of following lost packets *)
 Definition spec_nack_seqs (pairs : list (Z * Z)) : list Z :=
@@ -154,18 +159,19 @@ Definition resp_spec_step (size : Z) (copy : bool) (s : sstate) (o : op) (ou : o
   match o with
   | OBind i wid =>
       let hid := length (ss_handles s) in
-      (mkSS (ss_handles s ++ [mkSHd i wid ah_empty])
-            (if si_nack i then amap_set (si_ssrc i) hid (ss_bound s) else ss_bound s),
+      let served := si_nack i && negb (ss_closed s) in
+      (mkSS (ss_handles s ++ [mkSHd i wid ah_empty served])
+            (if served then amap_set (si_ssrc i) hid (ss_bound s) else ss_bound s) (ss_closed s),
        (if out_nothing ou then 0 else 4)%nat)
   | OWrite hid h pay =>
       match nth_error (ss_handles s) hid with
       | None => (s, 4%nat)
       | Some sd =>
           let through := (fst ou =? 0) && match snd ou with [e] => emit_eqb e (sd_wid sd, h, pay) | _ => false end in
-          if negb (si_nack (sd_info sd)) || negb (h_ssrc h =? si_ssrc (sd_info sd)) then
+          if negb (sd_served sd) || negb (h_ssrc h =? si_ssrc (sd_info sd)) then
             (s, if through then 0 else 4)%nat
           else if negb copy || storable (sd_rtx copy sd) h pay then
-            (mkSS (upd_nth hid (sd_set_hist (ah_add (sd_hist sd) (h_seq h) (h, pay))) (ss_handles s)) (ss_bound s),
+            (mkSS (upd_nth hid (sd_set_hist (ah_add (sd_hist sd) (h_seq h) (h, pay))) (ss_handles s)) (ss_bound s) (ss_closed s),
              if through then 0 else 4)%nat
           else (s, if (fst ou =? 0)%Z then 4%nat else match snd ou with [] => 0%nat | _ => 4%nat end)
       end
@@ -181,10 +187,10 @@ Definition resp_spec_step (size : Z) (copy : bool) (s : sstate) (o : op) (ou : o
   | OUnbind ssrc =>
       (match amap_find ssrc (ss_bound s) with
        | None => s
-       | Some hid => mkSS (upd_nth hid (sd_set_hist ah_empty) (ss_handles s)) (amap_remove ssrc (ss_bound s))
+       | Some hid => mkSS (upd_nth hid (sd_set_hist ah_empty) (ss_handles s)) (amap_remove ssrc (ss_bound s)) (ss_closed s)
        end, (if out_nothing ou then 0 else 4)%nat)
   | OClose =>
-      (mkSS (fold_left (fun hs kv => upd_nth (snd kv) (sd_set_hist ah_empty) hs) (ss_bound s) (ss_handles s)) [],
+      (mkSS (fold_left (fun hs kv => upd_nth (snd kv) (sd_set_hist ah_empty) hs) (ss_bound s) (ss_handles s)) [] true,
        (if out_nothing ou then 0 else 4)%nat)
   end.
 
@@ -197,7 +203,7 @@ Fixpoint resp_spec_run (size : Z) (copy : bool) (s : sstate) (steps : list (op *
   end.
 
 Definition resp_spec_code (c : resp_case) : nat :=
-  let '(size, copy, _, steps) := c in resp_spec_run size copy (mkSS [] []) steps.
+  let '(size, copy, _, steps) := c in resp_spec_run size copy (mkSS [] [] false) steps.
 
 Definition resp_spec_failures (cases : list resp_case) : list (Z * Z) :=
   find_idx_code resp_spec_code cases 0.
